@@ -7,8 +7,8 @@
   inside their `select`; `lazy`: Sends whose timeout fired, about to run `lazySend`; `execing`: jobs a
   worker is executing), idle / exited workers are counted.  A `select` offers every case that is
   ready: `ctx.Done()` once the context is cancelled, `ch <- e` while the channel has room, the timeout
-  always.  Critical sections under `listM` are steps.  `sendWg` = Sends not yet returned + a running
-  flusher; `runWg` = workers not yet exited.  Core Lean only.
+  always.  Critical sections under `listM` are steps; a Send's check-and-register (under `sendM`, which
+  Stop takes to cancel) is one step.  `sendWg` = Sends not yet returned + a running flusher; `runWg` = workers not yet exited.  Core Lean only.
 -/
 namespace FsDb.Pool
 
@@ -44,7 +44,7 @@ deriving Repr
 
 inductive Act
   | run
-  | send (j : Nat)          -- Send(e): sendWg.Add; ctx.Err() check; accepted
+  | send (j : Nat)          -- Send(e): under sendM.RLock: ctx.Err() check, sendWg.Add; accepted
   | selPush (j : Nat)       -- select: ch <- e
   | selDone (j : Nat)       -- select: <-ctx.Done()
   | selTimeout (j : Nat)    -- select: <-time.After(SendDuration)
